@@ -284,7 +284,7 @@ class Impl:
         if op == "contains":
             return "ok " + ("true" if a[1] in D(a[0]) else "false")
         if op == "ofarr":
-            return self.put_dset(a[0], self.get(a[1], FlodymArray).dims)
+            return self.put_dset(a[0], self.get(a[1], FlodymArray).dims.copy())
         return "bad-op"
 
 
